@@ -398,9 +398,23 @@ func genConSession(r *rand.Rand, i int) J {
 		[]any{bs("zz_cached_inc3.liq"), []any{nText("3"), nObj(eFilter(eVar("s"), "size"))}},
 	}
 	templates = append(templates, []any{nText("("), J{"t": "include", "e": eLit(vStr("zz_cached_inc.liq"))}, nText(")")})
+	// constructs of the embedding program (RegisterTag / RegisterBlock / RegisterFilter: harness/ext.go), several
+	// goroutines at a time: a filter with a Closure parameter (conditions not seen before), a block, a tag that sets
+	xw := func(cond J) J { return J{"t": "xwhere", "e": eVar("q"), "var": bs("x"), "c": cond} }
+	nExt := 0
+	for _, cond := range []J{eVar("x"), J{"t": "cmp", "op": ">", "a": eVar("x"), "b": eLit(vInt(1 + i%3))}, J{"t": "cmp", "op": "!=", "a": eVar("x"), "b": eVar("n")},
+		J{"t": "cmp", "op": "<", "a": eVar("x"), "b": eLit(vInt(2 + i%4))}} {
+		templates = append(templates, []any{nObj(eFilter(xw(cond), "join", eLit(vStr("+")))), nText("/"), nObj(eVar("x"))})
+		nExt++
+	}
+	templates = append(templates, []any{J{"t": "xblock", "times": 2, "body": []any{nObj(eVar("s")), J{"t": "xset", "name": bs("zq"), "e": eVar("n")}}}, nObj(eVar("zq")), J{"t": "xargs", "s": bs("k l")}})
+	nExt++
 	c["templates"] = templates
 	for k := 0; k < 12; k++ {
-		ops = append(ops, J{"t": len(templates) - 1, "b": r.Intn(nenv), "entry": pick(r, entries)})
+		ops = append(ops, J{"t": len(templates) - 1 - nExt, "b": r.Intn(nenv), "entry": pick(r, entries)})
+	}
+	for k := 0; k < 24; k++ {
+		ops = append(ops, J{"t": len(templates) - 1 - r.Intn(nExt), "b": r.Intn(nenv), "entry": pick(r, entries), "fresh": pick(r, []string{"", "", "parse"})})
 	}
 	c["ops"] = ops
 	c["cachewriters"] = 2
